@@ -1,4 +1,5 @@
 """C08 Ground- and excited-state searches are variational and consistent."""
+from vk.symx.harness import guarded
 import numpy as np
 
 from vk.rtc.harness import run_cases
@@ -172,7 +173,7 @@ def check(run):
             cases.append(("omega", name, n, s, run.tier))
     run_cases(run, worker, cases)
     from props import C08_sym
-    C08_sym.prove(run)
+    guarded(run, C08_sym.prove)
     from props import C08_tree
     C08_tree.check(run)
     run.rule = ("small Hamiltonians with dense reference {spin+qn 4/6 sites, electron-phonon 4(6), spin 4, two-component qn} x 2 sectors x {1site, 2site} x "
